@@ -102,8 +102,12 @@ def directed_leads(workdir, pid, regenerate):
     """Stored TLC leads (spec/diode/directed_scripts.json, produced by this very function with
     regenerate=True: `bin/check C11 --tier thorough` regenerates them on every run)."""
     if not regenerate:
-        return json.load(open(os.path.join(SPEC, "diode", "directed_scripts.json")))["scripts"]
-    return _directed_leads(workdir)
+        ds = json.load(open(os.path.join(SPEC, "diode", "directed_scripts.json")))["scripts"]
+    else:
+        ds = _directed_leads(workdir)
+    for d in ds:
+        d["foreign"] = True
+    return ds
 
 
 def _directed_leads(workdir):
@@ -260,7 +264,7 @@ def validate_impl(sc, recs):
         drifted = sorted({owner[b - 1] for b in bad})
         first = None
         if bad:
-            first = {"script": recs[owner[bad[0] - 1]][0]["id"], "line": json.loads(lines[bad[0] - 1])}
+            first = {"script": recs[owner[bad[0] - 1]][0]["id"], "line": json.loads(lines[bad[0] - 1]), "ids": [recs[d][0]["id"] for d in drifted[:5]]}
         return {"cfg": (P, W, N, pol), "scripts": len(ris), "lines": len(lines), "drifted": len(drifted), "first": first}
 
     return pool_map(one, list(groups.items()), workers=NCPU // 2)
@@ -309,7 +313,7 @@ def check(pid, tier, seed, replay=None):
             if sig and sig in known:
                 v.known_finding(sig, known[sig]["what"])
                 continue
-            v.violation(what, {"property": pid, "script": s, "recording": [json.loads(x) for x in obs_lines], "bad_line": k + 1, "event": e})
+            v.violation(what, {"property": pid, "script": s, "recording": [json.loads(x) for x in obs_lines][max(0, k - 150):k + 5], "bad_line": k + 1, "event": e})
         if other:
             log("%s: %d recordings leave the contract at events owned by another diode property (reported there)" % (pid, other))
         drift = sum(c["drifted"] for c in conf)
